@@ -8,6 +8,7 @@
   (`cancel`, `advance`).
 -/
 import SimVerif.Kernel
+import SimVerif.Queue
 
 namespace SimVerif.Drv
 
@@ -40,8 +41,34 @@ def parseBatch (lines : List String) : List Scn :=
       | _, none => go rest none acc
   go lines none []
 
+/-- kinds of sinks a scenario can declare (`hop <name> <kind> …`) -/
+inductive HopKind where
+  | queue (qi : Nat)
+  | probe
+  | hole
+  | nat (ext : String)
+  | dropper (di : Nat)
+  | echo (route : List String) (ty : PType) (len ovh : Nat)
+  deriving Repr
+
+structure QInst where
+  name : String
+  cfg  : QCfg
+  q    : Q := {}
+
+structure DInst where
+  which : List Nat
+  seen  : Nat := 0
+
+/-- ids reserved for the queues' internal objects in the kernel model -/
+def qTimer (qi : Nat) : Nat := 1000 + qi
+def qHandler (qi : Nat) (cb : Cb) : Nat := 1000000 + 2 * qi + (match cb with | .begin => 0 | .sent => 1)
+
 structure KSt where
   k    : K := {}
+  hops : List (String × HopKind) := []
+  qs   : List QInst := []
+  ds   : List DInst := []
   pend : List (Nat × Nat) := []     -- timer ↦ handler id of the wait whose slot may be busy
   out  : List String := []          -- reversed
   stepNo : Nat := 0                 -- event boundaries seen (step hook)
@@ -62,6 +89,131 @@ def timerOp? (o : String) : Option (Nat × String) :=
   | [a, b] => (parseId? "t" a).map (fun i => (i, b))
   | _ => none
 
+def splitCommas (s : String) : List String := (s.splitOn ",").filter (· ≠ "")
+
+/-- Build the sinks from the declaration lines of a scenario. -/
+def KSt.declare (s : KSt) (decl : List (List String)) : KSt :=
+  decl.foldl (fun s d =>
+    match d with
+    | "hop" :: name :: "queue" :: args =>
+      let bw := (findNat? args "bw").getD 0
+      let cfg : QCfg := { bw := bw, lat := (findInt? args "lat").getD 0, cap := (findNat? args "cap").getD 0,
+                          ser := serFloat bw }
+      { s with hops := s.hops ++ [(name, .queue s.qs.length)], qs := s.qs ++ [{ name := name, cfg := cfg }] }
+    | "hop" :: name :: "probe" :: _ => { s with hops := s.hops ++ [(name, .probe)] }
+    | "hop" :: name :: "hole" :: _ => { s with hops := s.hops ++ [(name, .hole)] }
+    | "hop" :: name :: "nat" :: args => { s with hops := s.hops ++ [(name, .nat ((findKv? args "ext").getD "99.0.0.1"))] }
+    | "hop" :: name :: "dropper" :: args =>
+      let which := (splitCommas ((findKv? args "drop").getD "")).filterMap String.toNat?
+      { s with hops := s.hops ++ [(name, .dropper s.ds.length)], ds := s.ds ++ [{ which := which }] }
+    | "hop" :: name :: "echo" :: args =>
+      { s with hops := s.hops ++ [(name, .echo (splitCommas ((findKv? args "route").getD ""))
+          (((findKv? args "type").bind PType.ofString).getD .ack) ((findNat? args "len").getD 0) ((findNat? args "ovh").getD 20))] }
+    | _ => s) s
+
+def hex2 (n : Nat) : String :=
+  let d := fun (x : Nat) => if x < 10 then Char.ofNat (48 + x) else Char.ofNat (87 + x)
+  String.ofList [d (n / 16 % 16), d (n % 16)]
+
+/-- payload of an injected packet: byte i is (id + i) mod 256; printed like the harness does -/
+def payloadHex (id len : Nat) : String :=
+  let byte := fun (i : Nat) => hex2 ((id + i) % 256)
+  if len = 0 then "-"
+  else if len ≤ 16 then String.join ((List.range len).map byte)
+  else String.join ((List.range 8).map byte) ++ ".." ++ String.join ((List.range 8).map (fun i => byte (len - 8 + i)))
+
+def describePkt (tag name : String) (now : Int) (p : Pkt) (hasDrop : Bool) : String :=
+  tag ++ " " ++ name ++ " t=" ++ toString now ++ " type=" ++ p.ty.toString ++ " seq=" ++ toString p.id
+    ++ " len=" ++ toString p.len ++ " ovh=" ++ toString p.ovh ++ " from=" ++ p.src ++ " ec=ok bc=0 drop="
+    ++ (if hasDrop then "1" else "0") ++ " hops=" ++ (if p.hops.isEmpty then "0" else "1")
+    ++ " pl=" ++ payloadHex p.id p.len
+
+def KSt.setQ (s : KSt) (qi : Nat) (q : Q) : KSt :=
+  { s with qs := s.qs.mapIdx (fun i x => if i = qi then { x with q := q } else x) }
+
+/-- Interpret the effects of a queue function on the kernel model: the forward timer is kernel
+    timer `qTimer qi`, the callbacks are kernel handlers `qHandler qi cb`. -/
+def applyQEffs (p : KParams) (qi : Nat) (effs : List QEff) (s : KSt) : KSt :=
+  effs.foldl (fun s e =>
+    match e with
+    | .arm e cb =>
+      let k := step p s.k (.expiresAt (qTimer qi) e)
+      { s with k := step p k (.wait (qTimer qi) (qHandler qi cb)) }
+    | .post cb => { s with k := step p s.k (.post (qHandler qi cb)) }
+    | .dropCb pk => s.emit (describePkt "B" "cb" s.k.now pk false)) s
+
+def natRewrite (src ext : String) : String :=
+  match (src.splitOn ":").getLast? with
+  | some port => ext ++ ":" ++ port
+  | none => src
+
+/-- `forward_packet`: pop the next hop off the packet's route and hand the packet to it,
+    synchronously (fuel bounds route length × re-entrancy depth). -/
+def forwardPkt (p : KParams) : Nat → Pkt → KSt → KSt
+  | 0, _, s => { s with bad := true }
+  | f + 1, pk, s =>
+    match pk.hops with
+    | [] => s                                  -- "packet lost"
+    | name :: rest =>
+      let pk := { pk with hops := rest }
+      match s.hops.lookup name with
+      | none => { s with bad := true }
+      | some .hole => s
+      | some .probe => forwardPkt p f pk (s.emit (describePkt "P" name s.k.now pk pk.hasDrop))
+      | some (.nat ext) => forwardPkt p f { pk with src := natRewrite pk.src ext } s
+      | some (.echo route ty len ovh) =>
+        forwardPkt p f { id := 100000 + pk.id, ty := ty, len := len, ovh := ovh, hops := route, src := "0.0.0.0:0" } s
+      | some (.dropper di) =>
+        match s.ds[di]? with
+        | none => { s with bad := true }
+        | some d =>
+          if pk.okToDrop then
+            let s := { s with ds := s.ds.mapIdx (fun i x => if i = di then { x with seen := x.seen + 1 } else x) }
+            if d.which.contains d.seen then
+              let s := s.emit (describePkt "D" name s.k.now pk pk.hasDrop)
+              if pk.hasDrop then s.emit (describePkt "B" "cb" s.k.now pk false) else s
+            else forwardPkt p f pk s
+          else forwardPkt p f pk s
+      | some (.queue qi) =>
+        match s.qs[qi]? with
+        | none => { s with bad := true }
+        | some qinst =>
+          let r := qinst.q.incoming qinst.cfg s.k.now pk
+          applyQEffs p qi r.2 (s.setQ qi r.1)
+
+/-- A queue callback popped from the io_context queue. -/
+def runQueueCb (p : KParams) (h : Nat) (s : KSt) : KSt :=
+  let qi := (h - 1000000) / 2
+  match s.qs[qi]? with
+  | none => { s with bad := true }
+  | some qinst =>
+    if (h - 1000000) % 2 = 0 then
+      let r := qinst.q.beginSend qinst.cfg s.k.now
+      applyQEffs p qi r.2 (s.setQ qi r.1)
+    else
+      match qinst.q.sentPop with
+      | (_, none) => { s with bad := true }    -- front() of an empty deque in the C++
+      | (q1, some pk) =>
+        let s := forwardPkt p 64 pk (s.setQ qi q1)
+        match s.qs[qi]? with
+        | none => { s with bad := true }
+        | some qinst2 =>
+          let r := qinst2.q.sentFinish qinst2.cfg s.k.now
+          applyQEffs p qi r.2 (s.setQ qi r.1)
+
+def doInject (p : KParams) (ctx : String) (op : List String) (s : KSt) : KSt :=
+  let args := op.drop 1
+  let pk : Pkt := {
+    id := (findNat? args "id").getD 0
+    ty := ((findKv? args "type").bind PType.ofString).getD .payload
+    len := (findNat? args "len").getD 0
+    ovh := (findNat? args "ovh").getD 20
+    hasDrop := (findNat? args "cb").getD 0 != 0
+    hops := splitCommas ((findKv? args "route").getD "")
+    src := (findKv? args "from").getD "0.0.0.0:0" }
+  let s := forwardPkt p 64 pk s
+  s.emit ("C " ++ ctx ++ " " ++ joinSp op ++ " => -")
+
 mutual
 /-- Execute one op of context `ctx` (depth bounds inline `dispatch` nesting). -/
 def doOp (p : KParams) (scn : Scn) (depth : Nat) (ctx : String) (op : List String) (s : KSt) : KSt :=
@@ -75,6 +227,7 @@ def doOp (p : KParams) (scn : Scn) (depth : Nat) (ctx : String) (op : List Strin
     match parseId? "h" h with
     | some hn => ({ s with k := step p s.k (.post hn) }).emit (c ++ text ++ " => -")
     | none => { s with bad := true }
+  | "inject" :: _ => doInject p ctx op s
   | "dispatch" :: h :: _ =>
     match parseId? "h" h with
     | some hn =>
@@ -145,10 +298,13 @@ def pollLoop (p : KParams) (scn : Scn) : Nat → KSt → Nat → KSt × Nat
     | [] => (s, n)
     | t :: _ =>
       let s := { s with k := step p s.k .exec }
-      let h := "h" ++ toString t.h
-      let s := s.emit ("H " ++ h ++ " t=" ++ toString s.k.now ++ " ec=" ++ toString t.ec ++ " incall=0")
-      let s := s.clearH t.h
-      let s := doOps p scn 8 h (scn.ops h) s
+      let s :=
+        if t.h ≥ 1000000 then runQueueCb p t.h s     -- a queue's own callback (ignores `ec`)
+        else
+          let h := "h" ++ toString t.h
+          let s := s.emit ("H " ++ h ++ " t=" ++ toString s.k.now ++ " ec=" ++ toString t.ec ++ " incall=0")
+          let s := s.clearH t.h
+          doOps p scn 8 h (scn.ops h) s
       -- step hook `after_handler`: scenario ops placed at this event boundary
       let s := { s with stepNo := s.stepNo + 1 }
       let sc := "s" ++ toString s.stepNo
@@ -177,7 +333,7 @@ def runTop (p : KParams) (scn : Scn) : List (List String) → KSt → KSt
   | op :: rest, s => runTop p scn rest (doOp p scn 8 "top" op s)
 
 def kernelTrace (p : KParams) (scn : Scn) : List String :=
-  let s := runTop p scn (scn.ops "top") {}
+  let s := runTop p scn (scn.ops "top") (({} : KSt).declare scn.decl)
   let s := s.emit ("Q t=" ++ toString s.k.now)
   let body := s.out.reverse
   ["== " ++ scn.id] ++ body ++ (if s.bad then ["X model-error"] else []) ++ ["end"]
